@@ -47,7 +47,12 @@ type pkgDesc struct {
 	Env     map[string]string `json:"env,omitempty"`
 }
 
-const changelogYAML = `- semver: "1.1.0-1"
+const changelogYAML = `- semver: "1.3.0"
+  date: "2031-05-06T07:08:09Z"
+  packager: "Release Bot <bot@example.com>"
+  changes:
+    - note: "an entry dated after the package mtime"
+- semver: "1.1.0-1"
   date: "2009-12-08T22:00:00Z"
   packager: "Carlos A Becker <pkg@carlosbecker.com>"
   deb:
@@ -246,7 +251,7 @@ func (g *pkgGen) config(i int) genOut {
 	}
 	c.Version = g.semver()
 	c.Epoch = g.pick([]string{"", "", "0", "2", "17"})
-	c.Release = g.pick([]string{"", "", "1", "2", "3.el9"})
+	c.Release = g.pick([]string{"", "", "1", "2", "3.el9", "0"})
 	if g.chance(3) {
 		c.Prerelease = g.pick([]string{"beta1", "rc.1", "alpha-2"})
 	}
@@ -831,6 +836,13 @@ func pkgWorkdir() (string, func()) {
 	}
 	must(os.WriteFile(filepath.Join(work, "src/big2.bin"), big2, 0o644))
 	must(os.Chtimes(filepath.Join(work, "src/big2.bin"), t, t))
+	// sources owned by somebody else than the builder (possible when the harness runs as root): owner ids of the
+	// build host are not part of any package
+	if os.Geteuid() == 0 {
+		for _, p := range []string{"src/f2", "src/d/x", "src/d/sub", "src/k"} {
+			os.Lchown(filepath.Join(work, p), 12345, 23456)
+		}
+	}
 	must(os.Chtimes(filepath.Join(work, "src"), time.Unix(1600000000, 0), time.Unix(1600000000, 0)))
 	must(os.Chdir(work))
 	return work, func() { os.Chdir("/"); os.RemoveAll(work) }
